@@ -27,7 +27,8 @@ def parse_args(prop: str):
 def repo_rev() -> dict:
     import canopen
     path = os.path.dirname(os.path.dirname(os.path.abspath(canopen.__file__)))
-    if path != "/repo":
+    if path != "/repo" and os.environ.get("VERIF_DEV_REPO") != path:
+        # (VERIF_DEV_REPO: development runs against a scratch checkout; never set by a registered command)
         raise RuntimeError(f"canopen imported from {path}, expected /repo")
     try:
         head = subprocess.run(["git", "-C", "/repo", "rev-parse", "HEAD"], text=True,
